@@ -23,6 +23,10 @@ scheme `S` satisfying C10's named laws. No layer is re-proved here.
 * `build_files_roundtrip`   `files()` on the built package (paths and sizes as the accessors read them from the
   built header, payload through any round-tripping codec) yields the builder's files in path order, each under
   its own index with its exact content; `build_valid` — C09's statement at `𝐁`.
+* `build_file_entries`, `build_file_entries_reparsed`, `built_history_file_entries`   `get_file_entries()` on the built
+  package, on the written and re-parsed package, and after ANY sign / clear / write + re-parse history returns one
+  record per builder file with its exact path, mode, owner, group, clamped mtime, size, flags, digest, capabilities
+  and link target (C06 `readback_file_entries` composed with the signature headers the library installs).
 * `built_package_sound`   all of it as one statement.
 
 Hypotheses (all explicit): `C06.Valid 𝐱` (canonical strings / integers, main header below 2 GiB — needed for
@@ -308,6 +312,55 @@ theorem build_valid (archive payload : Bytes) {fes : List (FileE × Bytes)}
         (C09.archiveFor c uid gid fes) :=
   C09.build_valid ok (sigsOk_nil hsha) hu hg payload hc
 
+/-! ### 6b. `get_file_entries()` of a built package (C06 `readback_file_entries` at `build`'s own signature headers) -/
+
+/-- **build_file_entries**: `get_file_entries()` on the package `build` returns lists exactly the builder's files, in
+path order — destination path, mode, owner, group, `min(mtime, source_date)`, size, flags, SHA-256 digest,
+capabilities, link target (`C06.entryOf`). `DirsOk`: `add_data` registers every file's directory; `DigestsOk`:
+every stored digest text is empty or 64 characters (`add_data` stores a hex SHA-256). No validity hypothesis. -/
+theorem build_file_entries (archive payload : Bytes) (hd : DirsOk c) (hdig : C06.DigestsOk c) :
+    Acc.getFileEntries (build c now (hexOf sha256) archive payload).md.signature
+        (build c now (hexOf sha256) archive payload).md.header =
+      .ok (c.files.map (C06.entryOf (mkCtx c now (hexOf sha256 payload) (hexOf sha256 archive)))) :=
+  C06.readback_file_entries_build c now (hexOf sha256) archive payload hd hdig
+
+/-- … and on what `Package::parse` returns for the written package -/
+theorem build_file_entries_reparsed (archive payload : Bytes)
+    (v : C06.Valid (mkCtx c now (hexOf sha256 payload) (hexOf sha256 archive)))
+    (hfit : DigestFits sha256 (writeHeader (C06.hdrOf (mkCtx c now (hexOf sha256 payload) (hexOf sha256 archive)))))
+    (hd : DirsOk c) (hdig : C06.DigestsOk c) :
+    ∃ p', parsePackage (writePackage (build c now (hexOf sha256) archive payload)) = .ok p'
+      ∧ Acc.getFileEntries p'.md.signature p'.md.header =
+          .ok (c.files.map (C06.entryOf (mkCtx c now (hexOf sha256 payload) (hexOf sha256 archive)))) :=
+  ⟨_, build_reparse sha256 c now archive payload v hfit, build_file_entries sha256 c now archive payload hd hdig⟩
+
+/-- no signature header the library installs (by `build`, `sign`, `clear_signatures`) carries IMA file signatures -/
+theorem sigFor_no_ima {S : SigScheme} (hl : S.LegacyOk) (archive payload : Bytes) (s : SigState S.Key) :
+    getStringArray (C10.sigFor S sha256 (build c now (hexOf sha256) archive payload) s) SigTag.RPMSIGTAG_FILESIGNATURES
+      = .err "notfound" := by
+  cases s with
+  | initial => exact C06.signatureHeader_no_ima [] _ (fun _ h => by cases h)
+  | cleared => exact C06.signatureHeader_no_ima [] _ (fun _ h => by cases h)
+  | signed k t =>
+    refine C06.signatureHeader_no_ima _ _ (fun s h => ?_)
+    simp only [List.getLast?_singleton, Option.some.injEq] at h
+    subst h
+    rcases hl k with e | e <;> (show S.legacyTag k ≠ _; rw [e]; decide)
+
+/-- **built_history_file_entries**: build, then ANY sequence of sign / clear / write + re-parse — `get_file_entries()`
+on the result still lists exactly the builder's files -/
+theorem built_history_file_entries {S : SigScheme} (archive payload : Bytes) (hl : S.LegacyOk)
+    (v : C06.Valid (mkCtx c now (hexOf sha256 payload) (hexOf sha256 archive)))
+    (ok : SigRecsOk S sha256 (writeHeader (C06.hdrOf (mkCtx c now (hexOf sha256 payload) (hexOf sha256 archive)))))
+    (hd : DirsOk c) (hdig : C06.DigestsOk c) (ops : List (Op S.Key)) {p : Package}
+    (h : run S sha256 ops (build c now (hexOf sha256) archive payload) = .ok p) :
+    Acc.getFileEntries p.md.signature p.md.header =
+      .ok (c.files.map (C06.entryOf (mkCtx c now (hexOf sha256 payload) (hexOf sha256 archive)))) := by
+  rw [built_history_total sha256 c now archive payload hl v ok ops] at h
+  cases h
+  exact C06.readback_file_entries (mkCtx c now (hexOf sha256 payload) (hexOf sha256 archive)) _
+    (sigFor_no_ima sha256 c now hl archive payload _) hd hdig
+
 end files
 
 /-! ### 7. the end-to-end guarantee in one place -/
@@ -320,7 +373,10 @@ signature scheme (C10's laws), the package `𝐁` that `build` returns
 4. under ANY history of sign / clear / write + re-parse: the history does not fail, the result re-parses to itself,
    passes `verify_digests`, carries the built main header, lead and payload byte for byte, verifies with exactly the last
    signer's key (with none if there is none) and reports exactly that signer's key id;
-5. in particular `build_and_sign` with key `k` verifies with `k` only and reports `k`'s id. -/
+5. in particular `build_and_sign` with key `k` verifies with `k` only and reports `k`'s id;
+6. when every file's directory is registered and every digest text is empty or 64 characters (both guaranteed by
+   `add_data`), `get_file_entries()` after ANY such history (the empty one included) lists exactly the builder's files
+   with their exact attributes. -/
 theorem built_package_sound (md5 sha1 sha256 : Bytes → Bytes) (c : Cfg) (now : Nat) (archive payload : Bytes)
     {S : SigScheme} (hl : S.LegacyOk) (hc : S.Correct) (hbind : S.Binds) (hi : S.IssuerOk) (hb64 : S.B64)
     (v : C06.Valid (mkCtx c now (hexOf sha256 payload) (hexOf sha256 archive)))
@@ -348,12 +404,17 @@ theorem built_package_sound (md5 sha1 sha256 : Bytes → Bytes) (c : Cfg) (now :
     -- 5
     ∧ (∀ now' k, (∀ k', verifyWith S md5 sha1 sha256 k' (buildAndSign sha256 c now archive payload S now' k) = .ok () ↔ k' = k)
         ∧ keyIds S (buildAndSign sha256 c now archive payload S now' k) = .ok [S.keyId k]
-        ∧ verifyDigests md5 sha1 sha256 (buildAndSign sha256 c now archive payload S now' k) = .ok ()) := by
+        ∧ verifyDigests md5 sha1 sha256 (buildAndSign sha256 c now archive payload S now' k) = .ok ())
+    -- 6
+    ∧ (DirsOk c → C06.DigestsOk c → ∀ (ops : List (Op S.Key)) (p : Package), run S sha256 ops B = .ok p →
+        Acc.getFileEntries p.md.signature p.md.header =
+          .ok (c.files.map (C06.entryOf (mkCtx c now (hexOf sha256 payload) (hexOf sha256 archive))))) := by
   intro B hb
   have hoff := build_offsets sha256 c now archive payload v ok.sha
   obtain ⟨o1, _, o3, o4, o5, _, _, o8, o9⟩ := hoff
   refine ⟨build_verifies_digests md5 sha1 sha256 c now archive payload, build_reparse sha256 c now archive payload v ok.sha,
-    fun k' => C10.verify_unsigned (build_unsigned sha256 c now archive payload) k', ⟨o3, o4, o5, o1, o8, o9⟩, ?_, ?_⟩
+    fun k' => C10.verify_unsigned (build_unsigned sha256 c now archive payload) k', ⟨o3, o4, o5, o1, o8, o9⟩, ?_, ?_,
+    fun hd hdig ops p h => built_history_file_entries sha256 c now archive payload hl v ok hd hdig ops h⟩
   · intro ops
     have h := built_history_total sha256 c now archive payload hl v ok ops
     refine ⟨_, h, (built_history_reparse sha256 c now archive payload hl v ok ops h).2,
@@ -466,6 +527,40 @@ example : RpmValid.PackageValid (writePackage sBuilt) sBuilt sArchive :=
 /-- the summary theorem at the sample: all its hypotheses are discharged -/
 example := built_package_sound C10.tMd5 C10.tSha1 C10.tSha256 C06.sampleCfg sNow sArchive sPayload (S := C10.T)
   (legacyOk C10.ids) (correct C10.ids) (binds C10.ids) (issuerOk C10.ids) (b64 C10.ids) s_valid s_recs
+
+/-! `get_file_entries()` at C06's second sample (three files in two directories, capabilities, a symbolic link) -/
+def sCtx2 : Ctx := mkCtx C06.sampleCfg2 sNow (hexOf C10.tSha256 [4, 5]) (hexOf C10.tSha256 [1, 2, 3])
+def sBuilt2 : Package := build C06.sampleCfg2 sNow (hexOf C10.tSha256) [1, 2, 3] [4, 5]
+
+theorem s2_valid : C06.Valid sCtx2 := by
+  refine ⟨by decide +kernel, by decide +kernel, by decide, by decide +kernel, ?_⟩
+  have h := Hdr.fromEntries_store_le (recordsOf sCtx2) IndexTag.RPMTAG_HEADERIMMUTABLE
+  have : (List.map (fun r => r.2.enc.length + 7) (recordsOf sCtx2)).sum + 16 < 2147483648 := by decide +kernel
+  omega
+
+theorem s2_recs : SigRecsOk C10.T C10.tSha256 (writeHeader (C06.hdrOf sCtx2)) := by
+  have h1 : (writeHeader (C06.hdrOf sCtx2)).length < 100000 := by
+    have h := written_header_le s2_valid
+    have : 32 + 16 * ((recordsOf sCtx2).length + 1) + ((recordsOf sCtx2).map (fun r => r.2.enc.length + 8)).sum < 100000 := by
+      decide +kernel
+    omega
+  have h2 : (shaHex C10.tSha256 (writeHeader (C06.hdrOf sCtx2))).length = 6 := by
+    unfold shaHex; rw [hexLower_length]; rfl
+  exact sigRecsOk C10.ids C10.tSha256 _ (by omega)
+
+theorem s2_dirs : DirsOk C06.sampleCfg2 := by unfold DirsOk; decide
+example : C06.DigestsOk C06.sampleCfg2 := by decide
+example : C06.sampleCfg2.files.map (C06.entryOf sCtx2) = C06.sampleEntries2 := by decide +kernel
+example : Acc.getFileEntries sBuilt2.md.signature sBuilt2.md.header = .ok (C06.sampleCfg2.files.map (C06.entryOf sCtx2)) :=
+  build_file_entries C10.tSha256 C06.sampleCfg2 sNow [1, 2, 3] [4, 5] s2_dirs (by decide)
+example : ∃ p', parsePackage (writePackage sBuilt2) = .ok p' ∧
+    Acc.getFileEntries p'.md.signature p'.md.header = .ok (C06.sampleCfg2.files.map (C06.entryOf sCtx2)) :=
+  build_file_entries_reparsed C10.tSha256 C06.sampleCfg2 sNow [1, 2, 3] [4, 5] s2_valid s2_recs.sha s2_dirs (by decide)
+/-- after C10's sample history (sign, write + parse, sign, clear, sign, write + parse) -/
+example (p : Package) (h : run C10.T C10.tSha256 C10.hist sBuilt2 = .ok p) :
+    Acc.getFileEntries p.md.signature p.md.header = .ok (C06.sampleCfg2.files.map (C06.entryOf sCtx2)) :=
+  built_history_file_entries C10.tSha256 C06.sampleCfg2 sNow [1, 2, 3] [4, 5] (legacyOk C10.ids) s2_valid s2_recs
+    s2_dirs (by decide) C10.hist h
 
 end nonvacuity
 
